@@ -16,7 +16,10 @@ VIOLATIONS = "violations_C10"
 KNOWN = None
 SHARD = 40
 RULE = ("scenarios: job document / project document writes (old document absent, {}, small, > 8 KiB and > 64 KiB), "
-        "flushes of signac.buffered() blocks over 1-3 jobs (also forced flushes by a small capacity), the document "
+        "flushes of signac.buffered() blocks over 1-3 jobs (also forced flushes by a small capacity), buffered blocks that "
+        "interleave document modifications with doc-filtered find_jobs / len / iteration / groupby('doc.x') on the same "
+        "jobs, document writes through unpickled / copy.copy / copy.deepcopy Job and Project objects (document "
+        "accessed or not before cloning), the document "
         "write of the v1->v2 migration, Project.update_cache() on growing and shrinking workspaces (3..400 jobs; "
         "gzip stream in several chunks), update_cache() with an injected OSError at every call of the stream "
         "(clean-up branch), and the raw JSON backend with write_concern False/True; each with JSON thread support "
@@ -28,7 +31,7 @@ RULE = ("scenarios: job document / project document writes (old document absent,
         "entry of the descriptor); any entry on a document/cache/temp name outside the episodes, any entry the model "
         "translation does not consume, a failed replay self-check, a scenario without a write and a fault-case count "
         "different from the try body's length are emitted as mismatching cases; input_distribution['scenarios-"
-        "attempted'] counts scenarios (quick 50, thorough 104), every scenario yields >= 1 case or a harness error.  non-trivial: the old file "
+        "attempted'] counts scenarios (quick 76, thorough 144), every scenario yields >= 1 case or a harness error.  non-trivial: the old file "
         "exists or the write has >= 1 chunk of >= 2 bytes; distinct by (scenario, episode)")
 TRUSTED = [
     "os.replace is atomic w.r.t. concurrent open; a crash preserves the order of completed calls; an open file keeps its inode",
@@ -111,6 +114,76 @@ def build(desc, root):
                 for r in range(desc["rounds"]):
                     for i, j in enumerate(js):
                         j.doc["r%d" % r] = {"i": i, "pad": "x" * desc.get("pad", 5)}
+                    if desc.get("project"):
+                        p2.doc["round"] = r
+        return "SFlush", act
+    if kind == "clone":
+        # a document write through an unpickled / copied Job or Project object
+        import copy
+        import pickle
+        project = signac.init_project(path=root)
+        job = project.open_job({"a": 1}).init()
+        onjob = desc["on"] == "job"
+        target = os.path.join(job.path, "signac_job_document.json") if onjob else os.path.join(root, "signac_project_document.json")
+        old = _doc(desc["old"], 0)
+        if old is not None:
+            _write_plain(target, old)
+        new = _doc(desc["new"], 1)
+
+        def act(tracing):
+            p2 = signac.get_project(root)
+            obj = p2.open_job(id=job.id) if onjob else p2
+            if desc["accessed"]:
+                obj.document()                     # the document handle exists before the object is cloned
+            via = desc["via"]
+            if via == "pickle":
+                clone = pickle.loads(pickle.dumps(obj))
+            elif via == "copy":
+                clone = copy.copy(obj)
+            else:
+                clone = copy.deepcopy(obj)
+            if desc.get("buffered"):
+                with tracing(), signac.buffered():
+                    clone.document["extra_key"] = new
+            else:
+                with tracing():
+                    if desc.get("how", "set") == "reset":
+                        clone.document.reset(new)
+                    else:
+                        clone.document["extra_key"] = new
+        return ("SJobDoc" if onjob else "SProjectDoc"), act
+    if kind == "flushquery":
+        # a buffered block that interleaves document modifications with searches / iteration over the same jobs
+        project = signac.init_project(path=root)
+        jobs = [project.open_job({"a": i}).init() for i in range(desc["njobs"])]
+        for i, j in enumerate(jobs):
+            if i % 2 == 0:
+                _write_plain(os.path.join(j.path, "signac_job_document.json"), {"x": i, "old": True})
+
+        def act(tracing):
+            p2 = signac.get_project(root)
+            js = [p2.open_job(id=j.id) for j in jobs]
+            order = desc.get("order", "modify-first")
+            with tracing(), signac.buffered(desc.get("cap")):
+                for r in range(desc["rounds"]):
+                    if order == "query-first":
+                        list(p2.find_jobs({"doc.x": r}))
+                    for i, j in enumerate(js):
+                        j.doc["x"] = i + r
+                        j.doc["r%d" % r] = {"pad": "y" * desc.get("pad", 5)}
+                    q = desc["queries"]
+                    if "find" in q:
+                        list(p2.find_jobs({"doc.x": r}))
+                        list(p2.find_jobs({"doc.r%d.pad" % r: {"$exists": True}}))
+                    if "len" in q:
+                        len(p2.find_jobs({"doc.x": {"$gte": 0}}))
+                        len(p2)
+                    if "iter" in q:
+                        for jj in p2:
+                            jj.doc.get("x")
+                    if "groupby" in q:
+                        for _key, grp in p2.groupby("doc.x"):
+                            list(grp)
                     if desc.get("project"):
                         p2.doc["round"] = r
         return "SFlush", act
@@ -578,6 +651,22 @@ def gen_inputs(tier, rng):
         for nj, rounds, cap, proj in flushes:
             descs.append({"kind": "flush", "threads": thr, "njobs": nj, "rounds": rounds, "cap": cap, "project": proj,
                           "pad": rng.choice([5, 50, 9000])})
+        for on in ("job", "project"):
+            for via in ("pickle", "copy", "deepcopy"):
+                for accessed in (True, False):
+                    descs.append({"kind": "clone", "threads": thr, "on": on, "via": via, "accessed": accessed,
+                                  "old": rng.choice(["absent", "small", "large"]), "new": "small",
+                                  "how": rng.choice(["set", "reset"]), "buffered": False})
+            descs.append({"kind": "clone", "threads": thr, "on": on, "via": "pickle", "accessed": True,
+                          "old": "small", "new": "large", "buffered": True})
+        fq = [(2, 1, None, ["find"], "modify-first"), (3, 2, 60, ["find", "len", "iter"], "modify-first"),
+              (2, 2, None, ["groupby", "iter"], "query-first")]
+        if not quick:
+            fq += [(3, 3, 0, ["find", "groupby"], "modify-first"), (1, 2, 30, ["len", "find"], "query-first"),
+                   (3, 1, None, ["find", "len", "iter", "groupby"], "modify-first")]
+        for nj, rounds, cap, queries, order in fq:
+            descs.append({"kind": "flushquery", "threads": thr, "njobs": nj, "rounds": rounds, "cap": cap,
+                          "queries": queries, "order": order, "project": nj % 2 == 1, "pad": rng.choice([5, 200])})
         descs.append({"kind": "migration", "threads": thr, "olddoc": False})
         descs.append({"kind": "migration", "threads": thr, "olddoc": True})
         caches = [(0, 3, 0, False), (3, 5, 0, False), (5, 6, 3, False), (40, 120, 0, True)]
